@@ -625,10 +625,10 @@ pub fn issue_op(c: &mut Commands, op: Op, cmd: CmdId, top: bool, rm: Option<&mut
             c.queue(marker(cmd));
             let tok = match variant
             {
-                Variant::Plain => c.react().once(bundle, plain_actor(new_id, false, true)),
-                Variant::NoTake => c.react().once(bundle, plain_actor(new_id, false, false)),
-                Variant::Erring => c.react().once(bundle, erring_actor(new_id)),
-                Variant::Exclusive => c.react().once(bundle, exclusive_actor(new_id)),
+                Variant::Plain => c.react().once(bundle, plain_actor(new_id, false, true, vec![])),
+                Variant::NoTake => c.react().once(bundle, plain_actor(new_id, false, false, vec![])),
+                Variant::Erring => c.react().once(bundle, erring_actor(new_id, vec![])),
+                Variant::Exclusive => c.react().once(bundle, exclusive_actor(new_id, vec![])),
             };
             let e = *SystemCommand::from(tok.clone());
             with_ctx(|x| {
@@ -753,14 +753,15 @@ fn actor_run(id: ActorId, c: &mut Commands, readers: Readers, local_ctr: u32, cl
 }
 
 /// All ordinary actors are instances of this one closure type.
-pub fn plain_actor(id: ActorId, erring: bool, take: bool)
+pub fn plain_actor(id: ActorId, erring: bool, take: bool, sigs: Vec<AutoDespawnSignal>)
     -> impl FnMut(Commands, AllReaders, Local<u32>, ReactiveMut<CA>) -> DropErr + Send + Sync + 'static
 {
+    // the canary is declared first so that it is dropped before the captured signals
     let canary = Canary(id);
     let mut closure_ctr = 0u32;
     move |mut c: Commands, mut r: AllReaders, mut local: Local<u32>, mut rm: ReactiveMut<CA>| -> DropErr
     {
-        let _keep = &canary;
+        let _keep = (&canary, &sigs);
         let (readers, held) = sample_readers(&mut r, take);
         let variant = if erring { Variant::Erring } else if take { Variant::Plain } else { Variant::NoTake };
         actor_run(id, &mut c, readers, *local, closure_ctr, variant, Some(&mut rm));
@@ -772,20 +773,20 @@ pub fn plain_actor(id: ActorId, erring: bool, take: bool)
     }
 }
 
-pub fn erring_actor(id: ActorId) -> impl FnMut(Commands, AllReaders, Local<u32>, ReactiveMut<CA>) -> DropErr + Send + Sync + 'static
+pub fn erring_actor(id: ActorId, sigs: Vec<AutoDespawnSignal>) -> impl FnMut(Commands, AllReaders, Local<u32>, ReactiveMut<CA>) -> DropErr + Send + Sync + 'static
 {
-    plain_actor(id, true, true)
+    plain_actor(id, true, true, sigs)
 }
 
 /// Exclusive actors: readers through a cached `SystemState`, commands through `world.commands()`.
-pub fn exclusive_actor(id: ActorId)
+pub fn exclusive_actor(id: ActorId, sigs: Vec<AutoDespawnSignal>)
     -> impl FnMut(&mut World, &mut SystemState<AllReaders<'static, 'static>>, Local<u32>) + Send + Sync + 'static
 {
     let canary = Canary(id);
     let mut closure_ctr = 0u32;
     move |world: &mut World, st: &mut SystemState<AllReaders<'static, 'static>>, mut local: Local<u32>|
     {
-        let _keep = &canary;
+        let _keep = (&canary, &sigs);
         let (readers, held) = {
             let mut r = st.get_mut(world);
             sample_readers(&mut r, true)
@@ -798,14 +799,14 @@ pub fn exclusive_actor(id: ActorId)
     }
 }
 
-fn spawn_actor_world(world: &mut World, id: ActorId, variant: Variant) -> SystemCommand
+fn spawn_actor_world(world: &mut World, id: ActorId, variant: Variant, sigs: Vec<AutoDespawnSignal>) -> SystemCommand
 {
     let sc = match variant
     {
-        Variant::Plain => world.spawn_system_command(plain_actor(id, false, true)),
-        Variant::NoTake => world.spawn_system_command(plain_actor(id, false, false)),
-        Variant::Erring => world.spawn_system_command(erring_actor(id)),
-        Variant::Exclusive => world.spawn_system_command(exclusive_actor(id)),
+        Variant::Plain => world.spawn_system_command(plain_actor(id, false, true, sigs)),
+        Variant::NoTake => world.spawn_system_command(plain_actor(id, false, false, sigs)),
+        Variant::Erring => world.spawn_system_command(erring_actor(id, sigs)),
+        Variant::Exclusive => world.spawn_system_command(exclusive_actor(id, sigs)),
     };
     with_ctx(|x| {
         x.names.insert(*sc, Name::Actor(id));
@@ -818,10 +819,10 @@ fn spawn_actor_commands(c: &mut Commands, id: ActorId, variant: Variant) -> Syst
 {
     let sc = match variant
     {
-        Variant::Plain => c.spawn_system_command(plain_actor(id, false, true)),
-        Variant::NoTake => c.spawn_system_command(plain_actor(id, false, false)),
-        Variant::Erring => c.spawn_system_command(erring_actor(id)),
-        Variant::Exclusive => c.spawn_system_command(exclusive_actor(id)),
+        Variant::Plain => c.spawn_system_command(plain_actor(id, false, true, vec![])),
+        Variant::NoTake => c.spawn_system_command(plain_actor(id, false, false, vec![])),
+        Variant::Erring => c.spawn_system_command(erring_actor(id, vec![])),
+        Variant::Exclusive => c.spawn_system_command(exclusive_actor(id, vec![])),
     };
     with_ctx(|x| {
         x.names.insert(*sc, Name::Actor(id));
@@ -895,18 +896,27 @@ fn run_program(cfg: &Arc<Config>)
     }
     // auto-despawn signals held by the harness
     with_ctx(|x| x.signals = (0..cfg.n_ents).map(|_| None).collect());
+    let mut prepared: Vec<Option<AutoDespawnSignal>> = (0..cfg.n_ents).map(|_| None).collect();
+    for e in cfg.auto_ents.iter().chain(cfg.actor_signals.iter().map(|(_, e)| e))
+    {
+        if prepared[*e as usize].is_some() { continue; }
+        let ent = with_ctx(|x| x.ents[*e as usize]);
+        prepared[*e as usize] = Some(app.world().resource::<AutoDespawner>().prepare(ent));
+    }
     for e in cfg.auto_ents.iter()
     {
-        let ent = with_ctx(|x| x.ents[*e as usize]);
-        let sig = app.world().resource::<AutoDespawner>().prepare(ent);
-        with_ctx(|x| x.signals[*e as usize] = Some(sig));
+        let sig = prepared[*e as usize].clone();
+        with_ctx(|x| x.signals[*e as usize] = sig);
     }
-    // actors
+    // actors (a closure may capture clones of signals)
     for (i, v) in cfg.actors.iter().enumerate()
     {
-        spawn_actor_world(app.world_mut(), i as ActorId, *v);
+        let sigs: Vec<AutoDespawnSignal> = cfg.actor_signals.iter().filter(|(a, _)| *a as usize == i)
+            .filter_map(|(_, e)| prepared[*e as usize].clone()).collect();
+        spawn_actor_world(app.world_mut(), i as ActorId, *v, sigs);
         with_ctx(|x| x.actors_ready |= 1 << i);
     }
+    drop(prepared);
     install_sink();
 
     // setup ops
